@@ -14,6 +14,7 @@ Regenerates lean/FairModel/Generated/AdvScheduleSrc.lean with a `SchedCfg.Cfg` r
   cbGuard     the guard around the callback block (`if self.callbacks_:`; any other guard is refused)
   cbResultCheck   the check of a callback's result before it is accumulated (condition and exception kind)
   partialFitCallbackCalls   partial_fit calls no callbacks
+  paramRejected   the range checks of `__setup` on batch_size / epochs / max_iter as one condition on an Int (ValueError)
   body        the ORDER of train_step / increment / max_iter test / callback block in the batch loop
 plus the loop nesting (`for .. in range(epochs)` around `for .. in range(batches)`), the shuffle placement and
 guard, the `train_step` call shapes of `fit` and `partial_fit`, and the decision rules of predict.
@@ -65,6 +66,9 @@ PINNED_DEFS = {
     "cbStep": ("n_iter", "cb(self, step=self.n_iter_, ...)"),
     "cbResultCheck": ("(.truthyNonBool .runtimeError)",
                       "if result and (not isinstance(result, bool)):     raise RuntimeError(_CALLBACK_RETURNS_ERROR)"),
+    "paramRejected": ("(decide ((-1 : Int) > v) || (decide ((0 : Int) ≥ v) && (v != (-1 : Int))))",
+                      "__setup, for batch_size / epochs / max_iter: check_scalar(kw, kwname, (int, float), min_val=-1, "
+                      "include_boundaries='left') ; if kw <= 0.0 and kw != -1: raise ValueError"),
     "binaryRule": (".threshold .ge", "(pred >= self.threshold_value).astype(float)"),
     "multiclassRule": (".argmaxRow", "argmax(pred, axis=1); b[a, c] = 1"),
     "fitReinit": ("((!has_classes) || (!warm_start))", "fit: reinitialize = not hasattr(self, 'classes_') or not self.warm_start"),
@@ -571,6 +575,75 @@ def lift_callbacks(block, ex_it):
                 exit=_exit_kind(fin.body, "fit/callbacks"))
 
 
+# ------------------------------------------------------------------------------------------- __setup: positivity
+class _FloatToInt(ast.NodeTransformer):
+    """`0.0` -> `0`: the validated values are Python ints in the model"""
+
+    def visit_Constant(self, node):
+        if isinstance(node.value, float) and node.value == int(node.value):
+            return ast.copy_location(ast.Constant(int(node.value)), node)
+        return node
+
+
+def lift_param_validation(setup):
+    """`for kw, kwname in ((self.batch_size, ..), (self.epochs, ..), (self.max_iter, ..)):
+            check_scalar(kw, kwname, (int, float), min_val=-1, include_boundaries='left')
+            if kw <= 0.0 and kw != -1: raise ValueError(..)`
+    -> which values of these three parameters are rejected (as a condition on one Int) and with which exception"""
+    want = {"self.batch_size", "self.epochs", "self.max_iter"}
+    loops = []
+    for st in setup.body:
+        if isinstance(st, ast.For) and isinstance(st.iter, ast.Tuple) and st.iter.elts \
+                and all(isinstance(e, ast.Tuple) and len(e.elts) == 2 for e in st.iter.elts) \
+                and ({_src(e.elts[0]) for e in st.iter.elts} & want):
+            loops.append(st)
+    if len(loops) != 1:
+        _bad(f"__setup: expected exactly one validation loop over batch_size / epochs / max_iter, found {len(loops)}")
+    loop = loops[0]
+    got = [_src(e.elts[0]) for e in loop.iter.elts]
+    if set(got) != want or len(got) != 3:
+        _bad(f"__setup: the validation loop covers {got}")
+    if not (isinstance(loop.target, ast.Tuple) and len(loop.target.elts) == 2 and all(isinstance(e, ast.Name) for e in loop.target.elts)) \
+            or loop.orelse:
+        _bad("__setup: validation loop target of unknown shape")
+    v = loop.target.elts[0].id
+    ex = Expr({v: "v"}, "__setup/validation")
+    conds, kinds, srcs = [], set(), []
+    for st in loop.body:
+        if isinstance(st, ast.Expr) and isinstance(st.value, ast.Call) and _src(st.value.func) == "check_scalar":
+            c = st.value
+            kws = {k.arg: k.value for k in c.keywords}
+            if not (len(c.args) == 3 and _src(c.args[0]) == v and _src(c.args[2]) in ("(int, float)", "int", "(int,)")
+                    and set(kws) <= {"min_val", "include_boundaries"} and "min_val" in kws):
+                _bad(f"__setup: check_scalar call of unknown shape: {_src(c)}")
+            srcs.append(_src(c))
+            m = ex.int(_FloatToInt().visit(kws["min_val"]))
+            inc = ast.literal_eval(kws["include_boundaries"]) if "include_boundaries" in kws else "both"
+            if inc in ("left", "both"):
+                conds.append(f"decide ({m} > v)")          # v < min_val is rejected
+            elif inc in ("right", "neither"):
+                conds.append(f"decide ({m} ≥ v)")
+            else:
+                _bad(f"__setup: include_boundaries={inc!r}")
+            kinds.add("valueError")                        # sklearn.utils.check_scalar: ValueError for a value out of range
+            continue
+        if isinstance(st, ast.If) and not st.orelse and len(st.body) == 1 and isinstance(st.body[0], ast.Raise) \
+                and st.body[0].exc is not None:
+            exc = st.body[0].exc
+            ename = _src(exc.func) if isinstance(exc, ast.Call) else _src(exc)
+            if ename != "ValueError":
+                _bad(f"__setup: a bad batch_size / epochs / max_iter raises `{ename}`")
+            kinds.add("valueError")
+            srcs.append("if " + _src(st.test) + ": raise ValueError")
+            conds.append(ex.bool(_FloatToInt().visit(st.test)))
+            continue
+        if not _harmless(st, {v}):
+            _bad(f"__setup: statement in the validation loop: {_src(st)[:80]}")
+    if not conds or kinds != {"valueError"}:
+        _bad("__setup: no range check of batch_size / epochs / max_iter found")
+    return dict(cond="(" + " || ".join(conds) + ")", src=" ; ".join(srcs))
+
+
 # ------------------------------------------------------------------------------------------- partial_fit
 def lift_partial_fit(fn):
     calls = [n for n in ast.walk(fn) if isinstance(n, ast.Call) and _src(n.func).endswith("train_step")]
@@ -935,6 +1008,7 @@ def adv_schedule(repo):
     p = lift_predict(cls, tree)
     lift_inverse(repo)
     lc = lift_lifecycle(cls)
+    pv = lift_param_validation(_find_fn(cls, "__setup", REL))
     cb = r["cb"]
     o = ["/-", f"GENERATED by harness/lifters/adv_schedule.py from {REL}", f"and {REL_PRE}. Do not edit.",
          "Roles of the locals in `fit`: " + ", ".join(f"{k}=`{v}`" for k, v in sorted(PINNED_ROLES.items())), "-/",
@@ -973,6 +1047,8 @@ def adv_schedule(repo):
     d("cbGuard", "", "CbGuard", "." + cb["guard"][0], cb["guard"][1] + " around the callback block of fit")
     d("cbResultCheck", "", "ResultCheck", cb["check"][0], cb["check"][1])
     d("partialFitCallbackCalls", "", "Nat", "0", "partial_fit does not mention self.callbacks_")
+    d("paramRejected", "(v : Int)", "Bool", pv["cond"], "__setup, for batch_size / epochs / max_iter: " + pv["src"])
+    d("paramRejectedExc", "", "ExcKind", ".valueError", "the exception of the range checks on batch_size / epochs / max_iter")
     d("shuffleAt", "", "ShuffleAt", "." + r["shuffleAt"], "position of `X, y, A = self.backendEngine_.shuffle(X, y, A)`")
     d("shuffleGuarded", "", "Bool", "true" if r["shuffleGuarded"] else "false", "the shuffle stands under `if self.shuffle:`")
     d("partialFitTrainSteps", "", "Nat", str(npf),
